@@ -59,6 +59,7 @@ UNIT = {
         af('isIndexHole'), af('Up'), af('Down'), af('setUp'), af('setDown'), af('setNonIndex'),
         af('requestChunk', where='out', loops=1), af('recycleChunk', where='out'),
         af('stopTrackingHole', where='out', cname='array_plus_grid__stopTrackingHole_real'),
+        af('startTrackingHole', where='out', cname='array_plus_grid__startTrackingHole_real'),
     ],
     'stubs': [
         'array_plus_grid::stopTrackingHole / startTrackingHole / moveCurrentToRow: the grid / medium-list / huge-list index of holes. Assumed: they write only pointer slots 1..4 inside holes and the list heads, never the boundary tags, never a slot of a live chunk; stopTrackingHole(h) requires h to be a tracked hole with matching tags',
@@ -77,6 +78,7 @@ UNIT = {
         job('ag_resize', 'array_plus_grid__resize', ST),
         job('ag_recycleChunk', 'array_plus_grid__recycleChunk', ST + TR),
         job('ag_stopTrackingHole', 'array_plus_grid__stopTrackingHole_real', ST),
+        job('ag_startTrackingHole', 'array_plus_grid__startTrackingHole_real', ST + ['array_plus_grid__moveCurrentToRow']),
         # ag_requestChunk: contract drafted in spec.h; the grid / medium-list paths need shape facts about Next(grid_current) and the
         # leftover split that are not discharged yet - not claimed
     ],
